@@ -306,7 +306,7 @@ def scenario(run, rng, idx):
 def run(run):
     run.rules.append(RULE)
     get_token_cases(run)
-    n = 60 if run.thorough() else 10
+    n = 1200 if run.thorough() else 150
     cases, impl, model = [], [], []
     for i in range(n):
         c, d, sim = scenario(run, run.rng, i)
